@@ -245,7 +245,67 @@ class Case(Enum):
     pass
 
 
+def run_bigfile(seed):
+    """A file of more than 2 MiB cut at sizes that interrupted block-wise copies leave behind
+    (exact multiples of 64 KiB / 1 MiB, where readers that work in blocks see a last block
+    that is full): every such prefix must be rejected by load() and add(), and the complete
+    file accepted."""
+    rng = subseed(seed, 'universe-bigfile')
+    u = U.generate_big(rng, n=6100)
+    sim = Case(u, seed, PROP, [])
+    violation = None
+    evals = 0
+    try:
+        try:
+            data = xmlout.resource_xml(u, u['resources'][0])
+            wd = sim.W.workdir('bigfile')
+            wn._db.connect()
+            sim.W.restart()
+            pre = observe.raw_dump(sim.W.dbpath())
+            cuts = [c for c in (65536, 1048576, 2097152, 1048576 + 65536) if c < len(data)]
+            for cut in cuts:
+                path = os.path.join(wd, 'cut-%d.xml' % cut)
+                with open(path, 'wb') as f:
+                    f.write(data[:cut])
+                detail = {'mutant': 'truncate@%d' % cut, 'file_bytes': len(data)}
+                sim.W.begin_op(budget=None)
+                try:
+                    _, lexc = sim.call(wn.lmf.load, path, progress_handler=None)
+                    _, aexc = sim.call(wn.add, path, progress_handler=None)
+                finally:
+                    sim.W.end_op()
+                evals += 1
+                if lexc is None:
+                    raise Violation(PROP, 'load-accepts', 'load() accepted a file truncated at '
+                                    'a block boundary (%d bytes)' % cut, detail)
+                if aexc is None:
+                    raise Violation(PROP, 'add-accepts', 'add() accepted a file truncated at a '
+                                    'block boundary (%d bytes)' % cut, detail)
+                sim.W.restart()
+                if observe.raw_dump(sim.W.dbpath()) != pre:
+                    raise Violation(PROP, 'db-changed', 'rejected file changed the database',
+                                    detail)
+            path = os.path.join(wd, 'whole.xml')
+            with open(path, 'wb') as f:
+                f.write(data)
+            _, lexc = sim.call(wn.lmf.load, path, progress_handler=None)
+            if lexc is not None:
+                raise Violation(PROP, 'valid-rejected', 'load() rejected a valid file',
+                                {'exc': repr(lexc), 'file_bytes': len(data)})
+        except Violation as v:
+            violation = v.to_json()
+        return {'seed': seed, 'violation': violation, 'digest': sim.W.event_digest(),
+                'ops': evals, 'faults': {'truncate-at-block-boundary': evals}, 'states': [],
+                'probes': {'bigfile': 1}, 'cells': [], 'evals': evals, 'nt': evals,
+                'known_hits': {}, 'nontrivial': True, 'sample': {'bigfile': True},
+                'replay': {'bigfile': True}}
+    finally:
+        sim.close()
+
+
 def run_one(seed, tier, explicit=None):
+    if (explicit or {}).get('bigfile') or (not explicit and seed % 48 == 7):
+        return run_bigfile(seed)        # one of the 48 quick runs, ten of the thorough ones
     rng = subseed(seed, 'universe')
     prof = U.Profile.draw(rng)
     prof['max_entries'] = min(prof['max_entries'], 4)
